@@ -23,7 +23,7 @@ parameters, expressions of free parameters, TDM loop variables and expressions o
 `dark_counts`; inverted gates of `NEGATION_INVERTS`; `Fouriergate`; target with shots / cutoff; TDM arrays
 with `N = [modes]`), `to_blackbird` succeeds and text + `to_program` return the program itself in dagger
 normal form.  Nothing is dropped: flags, parameters, modes, options, per-bin arrays. -/
-theorem roundtrip_blackbird (P : String → Option Sym) (p : Prog) (h : ExprBB P p) :
+theorem roundtrip_blackbird (P : String → Option ISym) (p : Prog) (h : ExprBB P p) :
     ∃ bb, toBB p = .ok bb ∧ toProgramBB P (reparseBB bb) = .ok (normBB p) :=
   bb_prog_rt P p h
 
@@ -38,10 +38,10 @@ def exFree : Sym :=
     frees := ["x"], val := some (.flt (3/2)) }
 
 /-- SymPy's parser on the strings involved -/
-def exP : String → Option Sym := fun s =>
-  if s = "2*{x} + 1" ∨ s = "2*x + 1" then some exFree.noVal
-  else if s = "-2*{x} - 1" ∨ s = "-2*x - 1" then some exFree.negate.noVal
-  else if s = "2*q0" then some exMeas.noVal else none
+def exP : String → Option ISym := fun s =>
+  if s = "2*{x} + 1" ∨ s = "2*x + 1" then some { toI exFree with val := none }
+  else if s = "-2*{x} - 1" ∨ s = "-2*x - 1" then some { toI exFree.negate with val := none }
+  else if s = "2*q0" then some { toI exMeas with val := none } else none
 
 def exProg : Prog :=
   { name := "ex", n := 4, target := some "gaussian", shots := some 3, cutoff := some 5,
@@ -59,7 +59,7 @@ def exProg : Prog :=
 measured first parameters (holding values), `Fouriergate`, a complex array, post-selection, dark counts,
 target and options, the composed model functions return the normal form, and the normal form differs
 from the program (dagger, values, `n`) -/
-example : (toBB exProg >>= fun bb => toProgramBB exP (reparseBB bb)) = .ok (normBB exProg) := by rfl
+example : (toBB exProg >>= fun bb => toProgramBB exP (reparseBB bb)) = .ok (normBB exProg) := by decide +kernel
 example : normBB exProg ≠ exProg := by decide +kernel
 
 /-- **XIR round trip, whole programs, ordinary and TDM.**  For every program of the fragment `ExprX`
@@ -67,7 +67,7 @@ example : normBB exProg ≠ exProg := by decide +kernel
 them, measurement phase / `select` / `dark_counts`, *any* inverse flags, `Fouriergate`, name, target,
 shots, cutoff, `N` and the per-bin arrays), `to_program (to_xir p)` returns `p` itself — `dagger`
 included, nothing normalised except the held values and `n` (highest used mode + 1, for TDM `sum N`). -/
-theorem roundtrip_xir (P : String → Option Sym) (p : Prog) (h : ExprX P p) :
+theorem roundtrip_xir (P : String → Option ISym) (p : Prog) (h : ExprX P p) :
     toProgramXIR P (toXIR p) = .ok (normX p) :=
   xir_prog_rt P p h
 
@@ -79,18 +79,18 @@ def exTdm : Prog :=
       { cls := "Rgate", regs := [1], pars := [.sym (loopSym 1)] },
       { cls := "MeasureHomodyne", regs := [0], pars := [.sym (loopSym 1)], select := some (.sc (.flt 0)) } ] }
 
-example : toProgramXIR exP (toXIR exTdm) = .ok (normX exTdm) ∧ normX exTdm = exTdm := ⟨by rfl, by decide +kernel⟩
+example : toProgramXIR exP (toXIR exTdm) = .ok (normX exTdm) ∧ normX exTdm = exTdm := by decide +kernel
 example : toProgramXIR exP (toXIR exProg) = .ok (normX exProg) ∧ (normX exProg).cmds.map (·.dagger) =
-    exProg.cmds.map (·.dagger) := ⟨by rfl, by decide +kernel⟩
+    exProg.cmds.map (·.dagger) := by decide +kernel
 
 /-- the TDM program with `N = [3]` also goes through Blackbird (the loop variable of the inverted gate
 comes back negated: `-{p0}` is written as a string and parsed) -/
 def exTdmBB : Prog := { exTdm with tdm := some { N := [3], params := [[.flt (1/8), .flt (1/4)], [.int 1, .int 2]] } }
-def exPT : String → Option Sym := fun s => if s = "-{p0}" then some (loopSym 0).negate else none
-example : (toBB exTdmBB >>= fun bb => toProgramBB exPT (reparseBB bb)) = .ok (normBB exTdmBB) := by rfl
+def exPT : String → Option ISym := fun s => if s = "-{p0}" then some (toI (loopSym 0).negate) else none
+example : (toBB exTdmBB >>= fun bb => toProgramBB exPT (reparseBB bb)) = .ok (normBB exTdmBB) := by decide +kernel
 
 /-- **one command through Blackbird**, the lemma the program theorem is an induction over. -/
-theorem roundtrip_blackbird_command (P : String → Option Sym) (tdm : Bool) (n : Nat) (c : Cmd)
+theorem roundtrip_blackbird_command (P : String → Option ISym) (tdm : Bool) (n : Nat) (c : Cmd)
     (h : CmdBB P tdm n c) :
     ∃ o, toBBOp tdm c = .ok o ∧ o.modes = c.regs ∧ rdBBOp P tdm n (textOp o) = .ok (clearCmd (normCmd c)) :=
   bb_cmd_rt h
@@ -99,20 +99,49 @@ example : CmdBB exP false 3 { cls := "BSgate", regs := [2, 0], dagger := true, p
   ⟨by decide, rfl, by
     intro v hv; simp only [List.mem_cons, List.not_mem_nil, or_false] at hv
     rcases hv with rfl | rfl
-    · exact Or.inr (Or.inr (Or.inr ⟨by decide, rfl, Or.inl rfl, by decide⟩))
+    · exact Or.inr (Or.inr (Or.inr ⟨by decide, rfl, Or.inl rfl, by decide, by decide⟩))
     · trivial,
    Or.inr ⟨by decide, rfl, rfl, Or.inr ⟨by decide, fun _ => ⟨by decide, _, _, _, rfl, rfl,
-     Or.inr (Or.inr (Or.inr ⟨by decide, rfl, Or.inl rfl, by decide⟩))⟩⟩⟩⟩
+     Or.inr (Or.inr (Or.inr ⟨by decide, rfl, Or.inl rfl, by decide, by decide⟩))⟩⟩⟩⟩
 
 /-- **one command through XIR** (gates, preparations, channels, measurements; ordinary and TDM): returned
 unchanged, inverse flag included. -/
-theorem roundtrip_xir_command (P : String → Option Sym) (tdm : Bool) (k n : Nat) (c : Cmd)
+theorem roundtrip_xir_command (P : String → Option ISym) (tdm : Bool) (k n : Nat) (c : Cmd)
     (h : CmdX P tdm k n c) : rdXStmt P tdm n k (toXStmt tdm c) = .ok (clearCmd c) :=
   xir_cmd_rt h
 
 example : CmdX exP true 2 3 { cls := "MeasureHomodyne", regs := [0], pars := [.sym (loopSym 1)], select := some (.sc (.flt 0)) } :=
   ⟨by decide, rfl, Or.inl ⟨by decide, by decide, Or.inr ⟨_, rfl, Or.inr (Or.inl ⟨rfl, 1, by decide, rfl⟩)⟩,
     (by intro v hv; cases hv; trivial), (by intro v hv; cases hv), Or.inl rfl⟩⟩
+
+/-- **subsystem indices survive their decimal names**: `int(str(n)) = n` for every `n` (any number of
+digits), on the digit-list model of the printing in `MeasuredParameter` and the parsing in `par_convert`. -/
+theorem index_roundtrip (n : Nat) : parseIndex (printIndex n) = some n :=
+  parseIndex_printIndex n
+
+example : printIndex 1203 = ['1', '2', '0', '3'] ∧ parseIndex ['0', '1', '0'] = some 10 ∧ parseIndex [] = none ∧
+    parseIndex ['1', 'x'] = none ∧ measuredIndex "q10" = some 10 ∧ measuredIndex "q1x" = none ∧
+    measuredIndex "quality" = none ∧ measuredIndex "q" = none := by decide +kernel
+
+/-- **`par_convert` inverts the writers' naming of atoms**: an expression written under the names of its atoms
+(measured parameter of subsystem `i` ↦ `q<i>`, free parameter ↦ its name) is mapped back to itself, for all
+subsystem indices, provided no free parameter is itself named `q<digits>` (`WellNamed`). -/
+theorem par_convert_inverts_naming (e : Sym) (hw : WellNamed e) : fromI (toI e) = e.noVal :=
+  fromI_toI e hw
+
+def exMix : Sym :=
+  { pos := ⟨"q1 - q10 + {q1x}", "q1 - q10 + q1x", false, none⟩, neg := ⟨"-q1 + q10 - {q1x}", "-q1 + q10 - q1x", false, none⟩,
+    meas := [1, 10], frees := ["q1x"], val := some (.flt (1/2)) }
+
+example : WellNamed exMix ∧ (toI exMix).names = ["q1", "q10", "q1x"] ∧ fromI (toI exMix) = exMix.noVal ∧
+    exMix.noVal ≠ exMix := by decide +kernel
+
+/-- (finding, by construction of the IRs) a free parameter that is itself named `q<digits>` cannot be told from a
+measured parameter: it comes back as the measured parameter of that subsystem -/
+theorem free_parameter_named_like_measured_counterexample :
+    fromI (toI { pos := ⟨"{q1}", "q1", true, none⟩, neg := ⟨"-{q1}", "-q1", false, none⟩, meas := [], frees := ["q1"] }) =
+      { pos := ⟨"{q1}", "q1", true, none⟩, neg := ⟨"-{q1}", "-q1", false, none⟩, meas := [1], frees := [] } := by
+  decide +kernel
 
 /-- **the inverse flag is never silently dropped by the Blackbird writer**: for *every* command
 (no fragment hypothesis), an inverted non-measurement either makes the writer raise, or is written
@@ -140,7 +169,7 @@ example : ∃ o, toBBOp false exS = .ok o ∧ o.args = [.sc (.flt (-1/2)), .sc (
 
 /-- **the XIR writer and reader carry the inverse flag of every command** (no hypothesis on the
 command beyond "the reader accepts it"). -/
-theorem xir_inverse_flag (P : String → Option Sym) (tdm : Bool) (n : Nat) (c c' : Cmd)
+theorem xir_inverse_flag (P : String → Option ISym) (tdm : Bool) (n : Nat) (c c' : Cmd)
     (h : fromXStmt P n (toXStmt tdm c) = .ok c') : c'.dagger = c.dagger := by
   have hb : ∀ cls regs args kws inv (r : Cmd), build cls regs args kws inv = .ok r → r.dagger = inv := by
     intro cls regs args kws inv r hr
@@ -169,7 +198,7 @@ theorem xir_inverse_flag (P : String → Option Sym) (tdm : Bool) (n : Nat) (c c
       · cases h
       · rw [← hinv]; exact hb _ _ _ _ _ _ h
 
-example : fromXStmt exP 3 (toXStmt false exS) = .ok exS := by rfl
+example : fromXStmt exP 3 (toXStmt false exS) = .ok exS := by decide +kernel
 
 /-- **no state between calls (XIR writer)**: whatever values the symbolic parameters of a program hold
 (bound by `bind_params`, measured in an earlier run), `to_xir` produces the same XIR program.
@@ -270,7 +299,7 @@ theorem options_without_target_counterexample (p : Prog) (h : p.target = none) (
 
 /-- run / backend options other than `shots` and `cutoff_dim` are restored by no reader, and never
 written to XIR -/
-theorem other_options_counterexample (P : String → Option Sym) (bb : BB) (x : XIR) (p : Prog) :
+theorem other_options_counterexample (P : String → Option ISym) (bb : BB) (x : XIR) (p : Prog) :
     (toProgramBB P bb = .ok p → p.extra = []) ∧ (toProgramXIR P x = .ok p → p.extra = []) := by
   constructor
   · intro h
@@ -316,10 +345,10 @@ theorem constructor_kwargs_counterexample (cls : String) (regs : List Nat) (args
     · cases h
     · cases h; rfl
 
-/-- XIR has no string values: a string parameter never comes back as a string (it is parsed as an
-expression, or the reader raises) -/
-theorem string_parameter_xir_counterexample (P : String → Option Sym) (tdm : Bool) (k : Nat) (s : String)
-    (v : Val) (h : rdX P tdm k (xirArg tdm (.str s)) = .ok v) : ∃ e, v = .sym e := by
+/-- XIR has no string values: a string parameter never comes back as a string (it is read as an expression
+over symbols, or the reader raises) -/
+theorem string_parameter_xir_counterexample (P : String → Option ISym) (tdm : Bool) (k : Nat) (s : String)
+    (v : Val) (h : rdX P tdm k (xirArg tdm (.str s)) = .ok v) : ∃ e, v = .rrt e := by
   cases tdm
   · simp only [rdX, Bool.false_eq_true, ↓reduceIte, xirArg, xirReadArg, xirExpr] at h
     split at h
